@@ -53,7 +53,7 @@ def _case(draw):
     return {"spec": spec, "w": [w1, w2], "content_seed": draw(st.integers(0, 2 ** 31)), "cbin_in": draw(st.integers(0, 3)) == 0,
             # the second window size is processed by the SAME converter object (init_params called again; NP2.4: into new
             # folders through extra=, NP2.1: overwrite=True) instead of a fresh converter in a fresh directory
-            "same_converter": draw(st.booleans())}
+            "same_converter": draw(st.booleans()), "stem": draw(st.sampled_from(np2.STEMS))}
 
 
 def strategy(tier):
@@ -114,7 +114,7 @@ def _windows(case, ctx, sg, npx, spec, D, shank, shanks, is24, nc, nap, ns, nlf,
         if True:
             if not reuse:
                 root = stack.enter_context(rec.scratch_dir(ctx))
-                ap = np2.make_session(root, spec, D, cbin=case["cbin_in"], chunk=5000)
+                ap = np2.make_session(root, spec, D, cbin=case["cbin_in"], chunk=5000, stem=case.get("stem"))
                 conv = ctx.call("C12.converter", npx.NP2Converter, ap, post_check=False, compress=False)
                 if conv is ctx.CRASH:
                     return
